@@ -105,6 +105,9 @@ func keySets(tier string, rng *Rng, forFs bool) [][]string {
 		{"docs/\U0001F600.txt", "docs/a", "docs/\uffee", "\U0001F600", "docs/\U0010FFFD", "docs/\u07ff"},
 		// names a directory walk may treat specially: leading dots (not "." and ".." themselves), blanks, a tilde, a trailing dot
 		{"docs/.config", "docs/.cache/x", "docs/a", ".top", ".d/x", "docs/..rc", "docs/ sp", "docs/~bak", "docs/end.", "..dd/x", "...e/y/z"},
+		// keys whose base64 spelling needs the two symbols the standard and the URL alphabet disagree on (as the last key of a page they
+		// end up in a continuation token)
+		{"docs/old~.txt", "docs/why?.txt", "docs/ak\u65e5.txt", "docs/a>b", "docs/zz", "do>", "do?", "d~~", "???", ">>>>"},
 	}
 	for _, r := range rich {
 		var clean []string
@@ -262,6 +265,14 @@ func runC03(tier string, seed uint64) {
 					}
 				}
 			}
+			if !isSmall(keys) && kind == "mem" {
+				// the richer sets also paged through (V2, one and two entries a page; every other walk hands the
+				// server's continuation token back exactly as it came): the pages add up to the listing
+				for _, mk := range []int{1, 2, 1, 2} {
+					s.walk(b, "", "", mk, true, len(keys)+1)
+				}
+				s.walk(b, "docs/", "/", 1, true, len(keys)+1)
+			}
 			// delete everything again (mem: versioned, so remove every version for a clean slate)
 			for _, k := range nested {
 				s.Delete(b, k)
@@ -349,9 +360,10 @@ func (s *Sess) walkFrom(b, prefix, delim string, maxKeys int, v2 bool, nKeys int
 	emit(s.prop, "WB", fmt.Sprint(maxKeys))
 	s.walks++
 	marker, has := "", false
+	rawToken := ""
 	terminated := false
 	for page := 0; page < nKeys+6; page++ {
-		q := ListReq{Bucket: b, Prefix: prefix, Delim: delim, Marker: marker, HasMarker: has, MaxKeys: maxKeys, V2: v2}
+		q := ListReq{Bucket: b, Prefix: prefix, Delim: delim, Marker: marker, HasMarker: has, MaxKeys: maxKeys, V2: v2, RawToken: rawToken}
 		if page == 0 && sa == "" && s.walks%3 == 2 {
 			// a client loop that always sends its marker variable: the parameter is present and empty on
 			// the first page (marker= / start-after= / continuation-token=), which is the same as absent
@@ -381,6 +393,10 @@ func (s *Sess) walkFrom(b, prefix, delim string, maxKeys int, v2 bool, nKeys int
 			break // truncated but no way to continue
 		}
 		marker, has = next, true
+		rawToken = ""
+		if v2 && s.walks%2 == 1 {
+			rawToken = r.NextRaw // every other V2 walk hands the server's token back as it came
+		}
 	}
 	emit(s.prop, "WF")
 	if sa != "" {
